@@ -51,6 +51,33 @@ UVal(P, st, c, k) ==
                                + ISqrt((2 * st.var[c] * P.c2ls[k + 1]) \div st.cnt[c])
                                + P.b3[k + 1] \div st.cnt[c]
 
+\* --- VHCT's per-cell threshold  tau = ceil( X * Y ),
+\*   X = var + 3 b nu rho^h + sqrt(var^2 + 2 var 3 b nu rho^h)      (fixed point, S units; nb[h+1] = S 3 b nu rho^h)
+\*   Y = c^2 ln(1/delta~) rho^(-2h) / nu^2                           (tauy[k+1][h+1] = S Y, capped)
+\* evaluated with shifted operands so that nothing leaves 31 bits; result exact to about 2^-13
+RECURSIVE ShiftDown(_, _)
+ShiftDown(x, e) == IF x < 32768 THEN <<x, e>> ELSE ShiftDown(x \div 2, e + 1)
+ISqrtProd(a, b) ==   \* floor-ish sqrt(a*b) for a < 2^14, b < 2^22
+  LET sb == ShiftDown(b, 0)            \* b ~ sb[1] * 2^sb[2], sb[1] < 2^15
+      ev == IF sb[2] % 2 = 0 THEN sb ELSE <<sb[1] \div 2, sb[2] + 1>>
+  IN ISqrt(a * ev[1]) * (2 ^ (ev[2] \div 2))
+TauVEst(P, st, c, k) ==
+  LET h  == st.T.dep[c]
+      v  == st.var[c]
+      nb == P.nb[h + 1]
+      X  == v + nb + ISqrtProd(v, v + 2 * nb)
+      Y  == P.tauy[k + 1][h + 1]
+      sx == ShiftDown(X, 0)
+      sy == ShiftDown(Y, 0)
+      m  == sx[1] * sy[1]                       \* X*Y ~ m * 2^e
+      e  == sx[2] + sy[2] - 2 * P.sexp          \* tau ~ m * 2^e
+  IN IF Y >= 1500000000 THEN 1900000000
+     ELSE IF e >= 0 THEN (IF e >= 10 \/ m >= 1000000 THEN 1900000000 ELSE m * (2 ^ e))
+     ELSE (m + (2 ^ (-e)) - 1) \div (2 ^ (-e))
+TauVClose(obs, est) ==
+  IF est >= 1000000 THEN obs >= 500000
+  ELSE AbsI(obs - est) <= 2 + est \div 64
+
 \* threshold of a cell in epoch k
 TauOf(P, st, c, k) ==
   IF P.algo = "HCT" THEN P.tau[k + 1][st.T.dep[c] + 1] ELSE st.tau[c]
